@@ -43,5 +43,6 @@ def run(rep, tier, seed):
     rep.assume("A1", "A2", "A4", "A5", "A6", "A8")
     D.run_contracts(rep, "C19", D.FIT, tier, with_lemmas=False)
     D.run_contracts(rep, "C19", [("contracts.binners", "sums_numitems"), ("contracts.exact", "cbldm_arguments"), ("contracts.bincompletion", "bin_completion_oversize")], tier)
+    D.run_static(rep, "C19", ("purity",))      # every per-call contract presupposes that results are functions of the arguments
     t3(rep, tier, seed)
     D.link_falsifier(rep)
